@@ -1,6 +1,6 @@
 #!/bin/bash
-# Parallel version of run_benign.sh: every behaviour-preserving edit (controls/benign, controls/benign_agents) applied to
+# Parallel version of run_benign.sh: every behaviour-preserving edit (controls/benign, controls/benign_agents, controls/benign_twins) applied to
 # a scratch copy, all 20 checks must stay silent.  Usage: tools/run_benign_par.sh [-j N]
 cd "$(dirname "$0")/.."
 J=${2:-6}
-ls controls/benign/*.diff controls/benign_agents/*.diff | xargs -P $J -I{} tools/try_benign.sh {} 2 220
+ls controls/benign/*.diff controls/benign_agents/*.diff controls/benign_twins/*.diff | xargs -P $J -I{} tools/try_benign.sh {} 2 220
